@@ -701,13 +701,15 @@ func init() {
 			panic(unsupported("sync.Pool that is not a package-level variable"))
 		}
 		pd := ec.e().cs.Pools[v.Pkg().Path()+"."+v.Name()]
-		if pd == nil {
-			panic(unsupported("sync.Pool %s has no `pool` directive (resource invariant)", v.Name()))
-		}
 		return pd, v
 	}
 	stdModels["(*sync.Pool).Get"] = func(ec *evalCtx, call *ast.CallExpr, recv Value, args []Value) Value {
 		pd, v := poolOf(ec, call)
+		if pd == nil {
+			// no resource invariant declared: whatever was Put (by anyone) comes back - an arbitrary value
+			ec.e().notes = appendUnique(ec.e().notes, "sync.Pool "+v.Name()+" has no pool directive: Get returns an arbitrary value")
+			return ec.e().freshIface(ec.st, ec.e().fresher.name("pooled."+v.Name()))
+		}
 		pkg := ec.e().pkgs[pd.Pkg]
 		tv, err := types.Eval(pkg.Fset, pkg.Types, v.Pos(), pd.Type)
 		if err != nil {
@@ -724,6 +726,9 @@ func init() {
 	}
 	stdModels["(*sync.Pool).Put"] = func(ec *evalCtx, call *ast.CallExpr, recv Value, args []Value) Value {
 		pd, v := poolOf(ec, call)
+		if pd == nil {
+			return nil
+		}
 		pkg := ec.e().pkgs[pd.Pkg]
 		var x Value = args[0]
 		if iv, ok := x.(*IfaceV); ok {
